@@ -30,7 +30,7 @@ type Case struct {
 var kindsFlag = flag.String("kinds", "standalone,sentinel,cluster,cluster", "case kinds to generate")
 
 func genCase(r *gen.Rand, i int) any {
-	return Case{K: gen.Pick(r, strings.Split(*kindsFlag, ",")), Seed: r.U64()}
+	return Case{K: gen.Pick(r, strings.Split(*kindsFlag, ",")), Seed: r.U64() ^ ro.SeedMix()}
 }
 
 type cmdSpec struct {
